@@ -6,6 +6,7 @@ mod util;
 mod c01;
 mod c10w;
 mod c14;
+mod c16e;
 mod c17;
 mod c18s;
 mod c19;
@@ -50,6 +51,7 @@ fn main() {
         "c01" => c01::run(&p),
         "c10w" => c10w::run(&p),
         "c14" => c14::run(&p),
+        "c16e" => c16e::run(&p),
         "c17" => c17::run(&p),
         "c18s" => c18s::run(&p),
         "c19" => c19::run(&p),
